@@ -22,8 +22,8 @@ import (
 func init() {
 	Register(&Monitor{
 		ID: "C13",
-		Rule: "per case one session: a shared document (through the store or through ReadXml), a pool of separately compiled expressions that are reused many times, shared binding maps assigned CLI-style, and a pool of caller-held NodeSets (earlier results, reverse-ordered copies, sub-slices full[i:j] with spare capacity whose backing array holds sentinel cursors beyond len); a PRNG-determined history of Exec (from the root / inner nodes, with pooled NodeSets as variables used as union operands, filter primaries and function arguments), Unmarshal and re-BuildExpr operations; " +
-			"oracle after every operation: deep snapshot of the cursor tree through the public interface (identity, Pos, kind/name/value, list membership and order, Parent) equals the initial one; every pooled NodeSet's length, capacity and all cap elements are unchanged; the binding maps are unchanged; a reflection-based structural hash of every Grammar (BSR forest and lexer, maps order-insensitively, pointers with cycle detection) is unchanged (checked every 16 operations and at the end); every (expression, start node, bindings) triple is re-executed at random later points and must equal its first result (values; node identity and order); two BuildExpr of one string agree. distinct_nontrivial = distinct (operation kind, expression) pairs with a non-empty result",
+		Rule: "per case one session: a shared document (through the store or through ReadXml), a pool of separately compiled expressions that are reused many times, shared binding maps assigned CLI-style (two namespace environments; per call one of four function libraries: shared, none, unset, or one that adds g() and shadows string-length()/count()), and a pool of caller-held NodeSets (earlier results, reverse-ordered copies, sub-slices full[i:j] with spare capacity whose backing array holds sentinel cursors beyond len); a PRNG-determined history of Exec (from the root / inner nodes, with pooled NodeSets as variables used as union operands, filter primaries and function arguments), Unmarshal and re-BuildExpr operations; " +
+			"oracle after every operation: deep snapshot of the cursor tree through the public interface (identity, Pos, kind/name/value, list membership and order, Parent) equals the initial one; every pooled NodeSet's length, capacity and all cap elements are unchanged; the binding maps are unchanged; a reflection-based structural hash of every Grammar (BSR forest and lexer, maps order-insensitively, pointers with cycle detection) is unchanged (checked every 16 operations and at the end); every (expression, start node, bindings) triple is re-executed at random later points and must equal its first result (values; node identity and order; four in ten Exec operations repeat an earlier call exactly); custom functions resolve only in the calls that bind them; two BuildExpr of one string agree. distinct_nontrivial = distinct (operation kind, expression) pairs with a non-empty result",
 		NCases: func(tier string) int { return map[string]int{"quick": 800, "thorough": 25000}[tier] },
 		Case:   c13Case,
 	})
@@ -248,6 +248,9 @@ func c13Case(r *evid.Run, tier string, idx int, g *rng.R) {
 		xast.Var{Prefix: "q", Local: "v"},
 		xast.Abs(xast.DS(), xast.S("child", xast.Test{Kind: xast.TNSAny, Prefix: "p"})),
 		xast.Fn("count", xast.Abs(xast.DS(), xast.S("child", xast.Test{Kind: xast.TNSAny, Prefix: "q"}))),
+		// names that only some calls bind as custom functions (g) or shadow (string-length, count)
+		xast.Fn("g"), xast.Fn("string-length", xast.Lit{S: "abc"}), xast.Fn("count", xast.Abs(xast.DS(), xast.S("child", xast.NodeT()))),
+		xast.Fn("concat", xast.Fn("string-length", xast.Lit{S: "abcd"}), xast.Lit{S: "/"}, xast.Fn("count", xast.Abs(xast.S("child", xast.NodeT())))),
 	} {
 		addExpr(e)
 	}
@@ -308,6 +311,20 @@ func c13Case(r *evid.Run, tier string, idx int, g *rng.R) {
 			return xsel.String("fn@" + uri), nil
 		}
 	}
+	// function bindings differ between calls: the shared library, none at all, or a library that
+	// additionally binds g() and shadows string-length() and count()
+	noFns := map[xsel.XmlName]xsel.Function{}
+	shadowFns := map[xsel.XmlName]xsel.Function{}
+	for k, v := range sharedFns {
+		shadowFns[k] = v
+	}
+	for _, nm := range []string{"g", "string-length", "count"} {
+		name := nm
+		shadowFns[xsel.XmlName{Local: name}] = func(ctx xsel.Context, args ...xsel.Result) (xsel.Result, error) {
+			return xsel.String("custom-" + name), nil
+		}
+	}
+	fnMode := 0
 	useAlt := false
 	apply := func(c *xsel.ContextSettings) {
 		if useAlt {
@@ -316,7 +333,15 @@ func c13Case(r *evid.Run, tier string, idx int, g *rng.R) {
 			c.NamespaceDecls = sharedNS
 		}
 		c.Variables = sharedVars
-		c.FunctionLibrary = sharedFns
+		switch fnMode {
+		case 0:
+			c.FunctionLibrary = sharedFns
+		case 1:
+			c.FunctionLibrary = noFns
+		case 2:
+			c.FunctionLibrary = shadowFns
+		case 3: // leave whatever the library defaults to
+		}
 	}
 	mapsKey := func() string {
 		var ks []string
@@ -329,7 +354,7 @@ func c13Case(r *evid.Run, tier string, idx int, g *rng.R) {
 		for k, v := range sharedVars {
 			ks = append(ks, fmt.Sprintf("var:%v=%s", k, resultKey(v, nil)))
 		}
-		ks = append(ks, fmt.Sprintf("fns:%d", len(sharedFns)))
+		ks = append(ks, fmt.Sprintf("fns:%d/%d/%d", len(sharedFns), len(noFns), len(shadowFns)))
 		sort.Strings(ks)
 		return strings.Join(ks, ";")
 	}
@@ -345,13 +370,26 @@ func c13Case(r *evid.Run, tier string, idx int, g *rng.R) {
 	if tier == "thorough" {
 		nops = g.Range(200, 1200)
 	}
+	type execCfg struct {
+		ei, si, fn int
+		ha, hb     *heldSet
+		alt        bool
+	}
+	var past []execCfg
 	for op := 0; op < nops; op++ {
 		ha, hb := rng.Pick(g, held), rng.Pick(g, held)
+		useAlt = g.P(40)
+		fnMode = rng.Pick(g, []int{0, 0, 0, 1, 2, 2, 3})
+		kind := g.Intn(10)
+		// four in ten Exec operations repeat an earlier call exactly
+		var again *execCfg
+		if kind < 7 && len(past) > 0 && g.P(40) {
+			again = &past[g.Intn(len(past))]
+			ha, hb, useAlt, fnMode = again.ha, again.hb, again.alt, again.fn
+		}
 		sharedVars[xsel.XmlName{Local: "a"}] = ha.ns
 		sharedVars[xsel.XmlName{Local: "b"}] = hb.ns
 		before := mapsKey()
-		useAlt = g.P(40)
-		kind := g.Intn(10)
 		desc := ""
 		switch {
 		case kind < 7: // Exec
@@ -361,13 +399,38 @@ func c13Case(r *evid.Run, tier string, idx int, g *rng.R) {
 			si := 0
 			if g.P(35) {
 				si = g.Intn(len(m.Order))
-				start = m.Order[si]
 			}
+			if again != nil {
+				ei, si = again.ei, again.si
+				p = exprs[ei]
+			} else {
+				past = append(past, execCfg{ei, si, fnMode, ha, hb, useAlt})
+			}
+			start = m.Order[si]
 			res, err := Exec(start, &p.g, apply)
 			r.Eval(1)
-			desc = fmt.Sprintf("op %d: Exec(node#%d, %s) with $a=%s $b=%s alt-bindings=%v", op, si, p.src, ha.label, hb.label, useAlt)
+			desc = fmt.Sprintf("op %d: Exec(node#%d, %s) with $a=%s $b=%s alt-bindings=%v functions=%s", op, si, p.src, ha.label, hb.label, useAlt, []string{"shared", "none", "shared+g+shadowed builtins", "unset"}[fnMode])
+			r.Tab("function_bindings", []string{"shared", "none", "shadowing", "unset"}[fnMode], 1)
+			// custom functions exist only in the calls that bind them
+			switch p.src {
+			case "g()":
+				if (err == nil) != (fnMode == 2) || (err == nil && res.String() != "custom-g") {
+					viol("determinism/functions", fmt.Sprintf("%s returned %s (%v); g() is bound only in calls with the shadowing library", desc, trunc(resultKey(res, err)), errStr(err)), append(hist, desc))
+				}
+			case "string-length('abc')":
+				want := "3"
+				if fnMode == 2 {
+					want = "custom-string-length"
+				}
+				if err != nil || res.String() != want {
+					viol("determinism/functions", fmt.Sprintf("%s returned %s, expected %s under this call's function bindings", desc, trunc(resultKey(res, err)), want), append(hist, desc))
+				}
+			}
+			if strings.Contains(p.src, "p:f()") && (fnMode == 1 || fnMode == 3) && err == nil {
+				viol("determinism/functions", fmt.Sprintf("%s succeeded (%s) although this call binds no function p:f", desc, trunc(resultKey(res, err))), append(hist, desc))
+			}
 			// prefixed names must resolve through this call's bindings, whatever ran before
-			if strings.HasPrefix(p.src, "concat($p:v") && err == nil {
+			if strings.HasPrefix(p.src, "concat($p:v") && err == nil && (fnMode == 0 || fnMode == 2) {
 				uri := sharedNS["p"]
 				if useAlt {
 					uri = altNS["p"]
@@ -376,7 +439,7 @@ func c13Case(r *evid.Run, tier string, idx int, g *rng.R) {
 					viol("determinism/bindings", fmt.Sprintf("%s returned %q, expected %q under this call's bindings", desc, res.String(), want), append(hist, desc))
 				}
 			}
-			key := fmt.Sprintf("%d|%d|%p|%p|%v", ei, si, ha, hb, useAlt)
+			key := fmt.Sprintf("%d|%d|%p|%p|%v|%d", ei, si, ha, hb, useAlt, fnMode)
 			rk := resultKey(res, err)
 			if f, ok := first[key]; ok {
 				r.Count("repeat_executions", 1)
